@@ -4,7 +4,8 @@ Theorems: lean/Props/C02.lean about lean/FlexModel/Wire/{Headers,Packet}.lean ag
 lean/FlexModel/Wire/Spec.lean (written from EN 302 636-4-1 clause 9 / EN 302 636-5-1 clause 7).
 Tie: differential correspondence of the model with every header codec of the repository (bytes as hex,
 decoded field tuples, exception kinds) and with whole packets emitted by a real Router / BTP Router through
-a capturing link layer (beacon, SHB, GBC, GAC, GUC, LS request, LS reply, forwarded TSB/GBC/GAC/GUC/LS).
+a capturing link layer (beacon, SHB, GBC, GAC, GUC, LS request, LS reply, forwarded TSB/GBC/GAC/GUC/LS), BTP-Data.requests
+with any declared length through btp.Router, and two receptions on one Router as two threads under harness/dsched.py.
 Oracle: an independent reference codec (`REF` below: layouts as data + generic pack/unpack, transcribed
 from the standard, never from the code) applied to the REAL outputs; the same layouts exist in Lean
 (`Spec.pack/unpack`) and both are cross-checked on every run.
@@ -44,6 +45,9 @@ EXPECTED_BRIDGES = ["Props.C02BridgeBasic", "Props.C02BridgeCommon", "Props.C02B
 TRUSTED = [
     "Wire/Spec.lean + REF in harness/props/c02.py: the ETSI layouts as data, transcribed by hand from EN 302 636-4-1 "
     "V1.4.1 clause 9 / 6.3 and EN 302 636-5-1 clause 7 (cross-checked against each other on every run)",
+    "harness/gen_wire.py (ast passes: enum tables; the binding of the per-reception secured-message context of geonet.Router and "
+    "its reset; the length= argument of the GNDataRequest built by btp_data_request) and harness/dsched.py (deterministic scheduler, "
+    "line-granular pre-emption) for the two-receive-threads scenario",
     "modelled rather than verified: nothing inside the header codecs (pure integer code); the Router's choice WHETHER to "
     "send/forward (geometry, location table, CBF timers) is outside C02 - only the octets of what is sent are judged",
 ]
@@ -64,8 +68,8 @@ ASSUMPTIONS = [
     "tests/flexstack/geonet/test_router.py::test_GNDataRequestBeacon",
     "known finding C02-KF2: originated packets carry version 1 whatever itsGnProtocolVersion says - a repair breaks "
     "tests/flexstack/geonet/test_basic_header.py::test_initialize_with_mib_and_rhl (mock MIB)",
-    "known finding C02-KF3: a SECURED packet (basic-header NH = 2) is forwarded without its security envelope (unsecured "
-    "re-assembly of the verified plain message, NH = 1); one always-on scenario (signed DENM through a verifying forwarder); "
+    "C02-KF3 (a SECURED packet forwarded without its security envelope) is fixed in /repo (e105657); the model stays dual-variant "
+    "(forwardSecured), the variant is probed at run time; one always-on scenario (signed DENM through a verifying forwarder); "
     "the envelope itself (signature, certificate) is C03/C05's subject",
 ]
 
@@ -1578,7 +1582,13 @@ RX_FILES = [router_mod.__file__]
 def build_rx(rng, kind, secured, fwd_ego, rhl_class=None):
     """one reception: a conformant packet of `kind` (reference packer) and, if `secured`, the opaque secured message the frame
     carries instead of the plain common header ‖ extended header ‖ payload"""
-    if kind == "shb":
+    if kind == "badsec":
+        # a secured frame whose verified plain message cannot be processed (shorter than a common header: DecodeError inside
+        # process_common_header): nothing is sent, and the reception must leave nothing behind for the NEXT reception of the thread
+        lt = rng.randint(1, 63) << 2 | rng.randint(1, 3)
+        pkt = (ref_pack(R_BASIC, [1, 1, 0, lt >> 2, lt & 3, rng.randint(2, 10)]) + bytes(rng.getrandbits(8) for _ in range(rng.randint(0, 7)))).hex()
+        secured = True
+    elif kind == "shb":
         so = g_lpv(rng)
         so[3], so[2] = now_tst(), rng.randint(1, (1 << 47))
         payload = bytes(rng.getrandbits(8) for _ in range(rng.choice([0, 5, 30])))
@@ -1608,7 +1618,7 @@ def rx_want(rx):
     10.3.x forwarder operations; a secured message is forwarded as received, the basic header is outside the signed part);
     nothing for SHB (never forwarded) and for a received RHL <= 1"""
     f = rx_frame(rx)
-    if rx["orig"] == "shb" or f[3] <= 1:
+    if rx["orig"] in ("shb", "badsec") or f[3] <= 1:
         return None
     return f[:3] + bytes([f[3] - 1]) + f[4:]
 
@@ -1625,7 +1635,7 @@ def build_rx_case(rng, kinds=None, secured=None, must_forward=False):
         while True:
             rc = rng.choice([None, None, None, "mid", "2", "max", "1"])
             rx = build_rx(rng, k, sec, fwd_ego, rhl_class=rc)
-            if not must_forward or k == "shb" or rx_want(rx) is not None:
+            if not must_forward or k in ("shb", "badsec") or rx_want(rx) is not None:
                 break
         rxs.append(rx)
     return {"kind": "rx2", "fwd_ego": fwd_ego, "rx": rxs}
@@ -1842,7 +1852,8 @@ def check_rx_threads(ctx, batch, volume=1):
     rng = ctx.rng
     # always: a secured single-hop packet (CAM-like: delivered, never forwarded) against an unsecured multi-hop one, ALL schedules
     # with one pre-emption; secured against secured and secured against unsecured of forwardable types, sampled
-    fixed = [(["shb", "tsb"], [True, False], 100000), (["gbc", "guc"], [True, False], ctx.scale(40, 400)),
+    fixed = [(["shb", "tsb"], [True, False], 100000), (["badsec", "gbc"], [True, False], ctx.scale(20, 200)),
+             (["gbc", "guc"], [True, False], ctx.scale(40, 400)),
              (["gbc", "tsb"], [True, True], ctx.scale(40, 400)), (["lsr", "gac"], [False, True], ctx.scale(30, 400))]
     found = 0
     for kinds, sec, cap in fixed:
